@@ -12,11 +12,11 @@ from ..scen import REQ, RESP, hb
 
 LEVEL = 'fault_enumeration'
 RULE = ('grid: ids {0..9,0xff,0x100..0x108,0x7fff,0xffff} x values {0,1,2,3,2^14-1,2^14,2^14+1,2^24-2,2^24-1,2^24,2^31-2,'
-        '2^31-1,2^31,2^32-1} x channel {received frame, update_settings, Settings(initial_values)} x role x position '
+        '2^31-1,2^31,2^32-1} x channel {received frame, HTTP2-Settings header of an h2c upgrade (servers), update_settings, Settings(initial_values)} x role x position '
         '(first/last of a two-setting frame), all enumerated every run; then the window-overflow sub-grid (1-5 streams with '
         'send windows at 2^31-1-d, some closed or half-closed, INITIAL_WINDOW_SIZE raised by d-1,d,d+1) and random (id,value) '
         'pairs; non-trivial = verdict of the table compared with the observed reaction; distinct = the grid cell / hash of case')
-MINIMA = {'grid_judged': 4000, 'rejected_with_code_checked': 500, 'accepted_checked': 2000, 'overflow_cases_judged': 300,
+MINIMA = {'upgrade_header_settings_judged': 500, 'grid_judged': 4000, 'rejected_with_code_checked': 500, 'accepted_checked': 2000, 'overflow_cases_judged': 300,
           'overflow_expected_error': 50, 'overflow_expected_ok': 50, 'overflow_cases_with_reserved_stream': 100}
 EXHAUSTIVE = {}
 
@@ -25,6 +25,8 @@ VALUES = [0, 1, 2, 3, 2 ** 14 - 1, 2 ** 14, 2 ** 14 + 1, 2 ** 24 - 2, 2 ** 24 - 
           2 ** 32 - 1]
 CHANNELS = ['recv', 'update', 'initial']
 GRID = [(ch, role, i, v, pos) for ch in CHANNELS for role in (True, False) for i in IDS for v in VALUES for pos in ('first', 'last')]
+# received settings also arrive in the HTTP2-Settings header of an h2c upgrade (servers only)
+GRID += [('upgrade', False, i, v, pos) for i in IDS for v in VALUES for pos in ('first', 'last')]
 PE, FC = wire.PROTOCOL_ERROR, wire.FLOW_CONTROL_ERROR
 MAXW = 2 ** 31 - 1
 
@@ -53,7 +55,8 @@ def run_case(idx, rng, tier, rep):
         return run_overflow(idx, rng, rep)
     i = rng.choice([rng.randrange(0, 2 ** 16), rng.choice([1, 2, 3, 4, 5, 6, 8])])
     v = rng.choice([rng.randrange(0, 2 ** 32), rng.choice(VALUES), 2 ** rng.randrange(0, 32), 2 ** rng.randrange(0, 32) - 1])
-    return run_cell((rng.choice(CHANNELS), rng.random() < 0.5, i, v, rng.choice(['first', 'last'])), rng, rep, 'random')
+    ch = rng.choice(CHANNELS + ['upgrade'])
+    return run_cell((ch, rng.random() < 0.5 and ch != 'upgrade', i, v, rng.choice(['first', 'last'])), rng, rep, 'random')
 
 
 OTHER = (3, 77)       # a harmless companion setting (MAX_CONCURRENT_STREAMS)
@@ -88,6 +91,37 @@ def run_cell(cell, rng, rep, layer):
                 got = repr(e)
             if got != v:
                 rep.violation('C12:initial-value-not-stored', 'Settings(initial_values={%d: %d})[%d] == %r' % (i, v, i, got), w)
+        return
+    if ch == 'upgrade':
+        import base64
+        import struct
+        header = base64.urlsafe_b64encode(b''.join(struct.pack('>HI', k, x) for k, x in pairs)).rstrip(b'=')
+        t = core.Tap(core.make_conn(False), keep_log=True)
+        res = t.call('initiate_upgrade_connection', header)
+        w['log_tail'] = t.tail_log(1)
+        rep.count('upgrade_header_settings_judged')
+        if want is None:
+            if res.exc is not None:
+                rep.violation('C12:valid-setting-rejected:id-%s' % idclass(i), 'HTTP2-Settings (%#x=%d) raised %s (code %r)' %
+                              (i, v, core.exc_key(res.exc), getattr(res.exc, 'error_code', None)), w)
+                return
+            rep.count('accepted_checked')
+            try:
+                got = t.c.remote_settings[i]
+            except Exception as e:      # noqa
+                got = repr(e)
+            if got != v:
+                rep.violation('C12:accepted-setting-not-reported', 'remote_settings[%#x] == %r after an upgrade carrying %d' % (i, got, v), w)
+            return
+        if res.exc is None:
+            rep.violation('C12:invalid-setting-accepted:id-%d' % i, 'HTTP2-Settings (%d=%d) accepted, expected code %d' % (i, v, want), w)
+            return
+        code = getattr(res.exc, 'error_code', None)
+        if not isinstance(res.exc, h2.exceptions.ProtocolError) or code is None or int(code) != want:
+            rep.violation('C12:wrong-code:id-%d:got-%s' % (i, code if code is None else int(code)),
+                          'HTTP2-Settings (%d=%d): %s with code %r, mandated %d' % (i, v, core.exc_key(res.exc), code, want), w)
+            return
+        rep.count('rejected_with_code_checked')
         return
     h = scen.Hostile(e_client, keep_log=True)
     w['role'] = role
